@@ -25,12 +25,14 @@ import (
 // ---------------------------------------------------------------- seeded yields (hook H2)
 
 type vfYieldPolicy struct {
-	mu    sync.Mutex
-	rng   *rand.Rand
-	sites map[string]int // site -> per-mille probability of a pause
-	maxUs int
-	hits  map[string]int64
-	n     atomic.Int64
+	park   map[string]chan struct{} // directed: a goroutine reaching this site parks until the channel is closed (bounded)
+	parked map[string]*atomic.Int32
+	mu     sync.Mutex
+	rng    *rand.Rand
+	sites  map[string]int // site -> per-mille probability of a pause
+	maxUs  int
+	hits   map[string]int64
+	n      atomic.Int64
 }
 
 var vfYieldCur atomic.Pointer[vfYieldPolicy] //nolint:gochecknoglobals
@@ -46,6 +48,15 @@ func vfSetYield(p *vfYieldPolicy) {
 		cur := vfYieldCur.Load()
 		if cur == nil {
 			return
+		}
+		if ch := cur.park[site]; ch != nil {
+			if n := cur.parked[site]; n != nil {
+				n.Add(1)
+			}
+			select {
+			case <-ch:
+			case <-time.After(3 * time.Second):
+			}
 		}
 		cur.mu.Lock()
 		cur.hits[site]++
